@@ -420,7 +420,10 @@ def xtextjoin(delimiter, ignore_empty, text, *args):
     raise_errors(delimiter, ignore_empty, text, *args)
 
     if ignore_empty:
-        it = (flatten((text,) + args, is_not_empty))
+        it = (
+            v for v in flatten((text,) + args, is_not_empty)
+            if not (isinstance(v, str) and v == '')
+        )
     else:
         it = (replace_empty(v, '') for v in flatten((text,) + args, None))
     return _str(next(flatten(delimiter, None))).join(map(_str, it))
